@@ -413,10 +413,11 @@ class Model:
         Returns:
             model: model of self with updated pin names
         """
-        for pin in copy(self.pin_dic):
-            if pin in pin_mapping:
-                n = self.pin_dic.pop(pin)
-                self.pin_dic[pin_mapping[pin]] = n
+        new_dic = {pin_mapping.get(pin, pin): n for pin, n in self.pin_dic.items()}
+        if len(new_dic) != len(self.pin_dic):
+            raise ValueError(f"In Model {self}: renaming maps two pins to the same pin")
+        self.pin_dic.clear()
+        self.pin_dic.update(new_dic)
         self.update_pins()
         return self
 
